@@ -32,7 +32,7 @@ def run(prop, tier, seed):
         n_binds += 1 if any(":" in a[len(m["prefixes"][c["arm"] - 1]):] for a in c["allowed"]) else 0
         n_or += 1 if m["hasor"] else 0
         if status != "done" or line not in c["allowed"]:
-            case = {"id": "%s_m%s" % (b["id"], m["g"]),
+            case = {"id": "%s_m%s_v%d" % (b["id"], m["g"], m["calls"].index(c)),
                     "files": {"main.abra": "\n".join(b["header"] + m["fn"] + [c["stmt"]]) + "\n"},
                     "expect": {"status": "done", "out": {"oneof": [a + "\n" for a in c["allowed"]]}},
                     "type": m["tyname"], "arms": m["armstxt"]}
@@ -42,11 +42,8 @@ def run(prop, tier, seed):
                             m["tyname"], m["armstxt"], c["stmt"], c["arm"], c["allowed"], status, line))
 
     # ---- let / for destructuring
-    dcases, dres = vlib.gen_enumerate(prop, os.path.join(vlib.SPEC, "props", "C14D.tla"),
-                                      env={**cmatch.jvm_env(tier), "TIER": tier, "MODE": "enum", "SHARD": "0", "NSHARD": "1", "CALLS": "0"})
-    if dres.distinct - 1 != len(dcases):
-        raise vlib.ToolError("C14D wrote %d files for %d states" % (len(dcases), dres.distinct - 1))
-    vlib.check_cases(rep, dcases, wd, name="destruct", what="let/for destructuring output differs from AbraMatch!BindsAlt")
+    dcases, dres = cmatch.gen_destruct(tier, wd)
+    vlib.check_cases(rep, dcases, wd, name="destruct", jobs=cmatch.JOBS, what="let/for destructuring output differs from AbraMatch!BindsAlt")
 
     uni = cmatch.universe_counts(batches)
     ms = [(b, m) for b in batches for m in b["matches"]]
